@@ -148,3 +148,74 @@ pub fn eval_components(game: &Game) -> EvalComponents {
         passed_pawns: EvalComponent::from_phased_eval(passed_pawns_eval, phase_value),
     }
 }
+
+/// Verification hook: the evaluation as a linear form. `coefficients` returns, per parameter group, the
+/// coefficient of every parameter in the position (white minus black) together with the evaluation from
+/// White's point of view and the phase value; `parameters` returns the parameters in the same order.
+#[cfg(jgilchrist_tcheran_verif)]
+pub mod verif_terms {
+    use super::*;
+    use crate::engine::eval::params;
+
+    pub fn coefficients(game: &Game) -> (Vec<(&'static str, Vec<i32>)>, i16, i16) {
+        let mut trace = Trace::new();
+        let eval = absolute_eval_with_trace::<true>(game, &mut trace);
+        let v = |c: &[TraceComponent]| c.iter().map(|x| x.0).collect::<Vec<_>>();
+
+        (
+            vec![
+                ("material", v(&trace.material)),
+                ("pawn_pst", v(&trace.pawn_pst)),
+                ("knight_pst", v(&trace.knight_pst)),
+                ("bishop_pst", v(&trace.bishop_pst)),
+                ("rook_pst", v(&trace.rook_pst)),
+                ("queen_pst", v(&trace.queen_pst)),
+                ("king_pst", v(&trace.king_pst)),
+                ("passed_pawn_pst", v(&trace.passed_pawn_pst)),
+                ("knight_mobility", v(&trace.knight_mobility)),
+                ("bishop_mobility", v(&trace.bishop_mobility)),
+                ("rook_mobility", v(&trace.rook_mobility)),
+                ("queen_mobility", v(&trace.queen_mobility)),
+                ("attacked_king_squares", v(&trace.attacked_king_squares)),
+                ("bishop_pair", v(&trace.bishop_pair)),
+            ],
+            eval.0,
+            game.incremental_eval.phase_value,
+        )
+    }
+
+    pub fn parameters() -> Vec<(&'static str, Vec<(i16, i16)>)> {
+        let p = |e: &[PhasedEval]| {
+            e.iter()
+                .map(|x| (x.midgame().0, x.endgame().0))
+                .collect::<Vec<_>>()
+        };
+        let pst = |kind: PieceKind| {
+            (0..Square::N)
+                .map(|i| {
+                    piece_square_tables::piece_contributions(
+                        Square::from_array_index(i),
+                        Piece::new(Player::White, kind),
+                    ) - params::PIECE_VALUES[kind.array_idx()]
+                })
+                .collect::<Vec<_>>()
+        };
+
+        vec![
+            ("material", p(&params::PIECE_VALUES)),
+            ("pawn_pst", p(&pst(PieceKind::Pawn))),
+            ("knight_pst", p(&pst(PieceKind::Knight))),
+            ("bishop_pst", p(&pst(PieceKind::Bishop))),
+            ("rook_pst", p(&pst(PieceKind::Rook))),
+            ("queen_pst", p(&pst(PieceKind::Queen))),
+            ("king_pst", p(&pst(PieceKind::King))),
+            ("passed_pawn_pst", p(&pawn_structure::white_pst(params::PASSED_PAWNS))),
+            ("knight_mobility", p(&params::KNIGHT_MOBILITY)),
+            ("bishop_mobility", p(&params::BISHOP_MOBILITY)),
+            ("rook_mobility", p(&params::ROOK_MOBILITY)),
+            ("queen_mobility", p(&params::QUEEN_MOBILITY)),
+            ("attacked_king_squares", p(&params::ATTACKED_KING_SQUARES)),
+            ("bishop_pair", p(&[params::BISHOP_PAIR_BONUS])),
+        ]
+    }
+}
